@@ -157,6 +157,7 @@ PROPS = {
         'families': [
             {'name': 'semt', 'args': {'quick': [], 'thorough': []}, 'shards': {'quick': 16, 'thorough': 16}, 'driver_args': []},
             {'name': 'types', 'args': {'quick': [], 'thorough': ['--triples', 100000]}, 'driver_args': []},
+            {'name': 'lit', 'args': {'quick': ['--ints', 100, '--bits', 30], 'thorough': ['--ints', 5000, '--bits', 500]}, 'driver_args': []},
         ],
         'exhaustive': {'quick': True, 'thorough': True},
         'rule': 'every target type (9 base types x widths {none,8,32,64} where allowed x const/non-const = 46 targets) x every value form '
@@ -180,5 +181,20 @@ PROPS = {
         'trusted_base': ['Model/Declared.v (hand-written mirror of designator_to_asg, scalar_type_to_type)'],
         'assumptions': ['designators that are general expressions or undefined names make the analyser panic: listed under C03'],
         'partial': ['gate arity, subroutine signature and the gate listing are checked on the implementation only (C13 family)'],
+    },
+    'C10': {
+        'coq': 'Props/C10.v',
+        'families': [
+            {'name': 'lit', 'args': {'quick': ['--ints', 600, '--bits', 80], 'thorough': ['--ints', 60000, '--bits', 5000]}, 'driver_args': []},
+        ],
+        'exhaustive': {'quick': False, 'thorough': False},
+        'rule': 'integers of every bit length 1..128 plus boundaries (2^32, 2^64, 2^127, 2^128-1, small) x radix {2,8,10,16} x prefix case x '
+                'digit case x random underscore placement, each also negated; values >= 2^128 and digits outside the radix (AST accessor only); '
+                '18 float shapes incl. subnormals, halfway cases and underscores, each also negated, compared as IEEE bits; bit strings of '
+                '1..256 bits in both quotes with underscores; 6 numbers x 7 units x with/without blank; booleans',
+        'trusted_base': ['Model/Literals.v (hand-written mirror of token_ext.rs IntNumber and QuoteOffsets, with u128::from_str_radix modelled)',
+                         'Rust str::parse::<f64> and Display for f64 are oracles (correctly rounded / shortest round-trip)'],
+        'assumptions': ['integer literals >= 2^128 or with digits outside the radix make the analyser panic: listed under C03'],
+        'partial': ['floats, timing, imaginary, boolean literals and negation folding: implementation oracle only'],
     },
 }
